@@ -1,4 +1,5 @@
 """C44 — fast-export followed by fast-import preserves history."""
+import contextlib
 import io
 import os
 import shutil
@@ -29,11 +30,11 @@ META = dict(
                "timestamps (the stream format has no fractions), timezones incl. negative non-whole-hour offsets. Trees are "
                "compared after DropEmptyDirs (the stream is git's format; the importer prunes directories that become "
                "empty); empty-directory differences are counted in the evidence, not judged. Exporter in rich and --plain "
-               "mode, importer with and without pruning. Trusted: TLC, the JSON bridge, CommitBuilder (fixture re-read "
+               "mode; the importer as `brz fast-import` constructs it (pruning). Trusted: TLC, the JSON bridge, CommitBuilder (fixture re-read "
                "and compared), the python-fastimport parser.",
 )
 
-VARIANTS = (("rich", False, True), ("plain", True, True), ("rich-noprune", False, False))
+VARIANTS = (("rich", False, True), ("plain", True, True))
 
 
 def run_fast(ctx, h, idx, root):
@@ -86,7 +87,8 @@ def fast_once(ctx, h, idx, root, names, variant, props=None):
             try:
                 nb = cc.new_branch(os.path.join(work, "dst"))
                 proc = generic_processor.GenericProcessor(nb.controldir, params=None, prune_empty_dirs=prune)
-                proc.process(parser.ImportParser(io.BytesIO(stream)).iter_commands)
+                with contextlib.redirect_stdout(io.StringIO()):          # the importer prints "ABORT: ..." on errors
+                    proc.process(parser.ImportParser(io.BytesIO(stream)).iter_commands)
                 nb = B.Branch.open(os.path.join(work, "dst"))
                 tip = nb.last_revision()
                 if tip == b"null:":
@@ -102,19 +104,13 @@ def fast_once(ctx, h, idx, root, names, variant, props=None):
             "diag": {"stream": stream.decode("utf-8", "replace")[-6000:]}}
 
 
-def replay(sub, chunk):
+def replay_chunk(sub, chunk):
     root = cc.scratch_root() or sub.workdir
     rows = []
     for idx, h in chunk:
         rows.append(run_fast(sub, h, idx, root))
         sub.count(1)
     sub.cov.setdefault("_collect", []).extend(rows)
-
-
-def quiet():
-    """The exporter / importer report progress through trace.note."""
-    import logging
-    logging.getLogger("brz").setLevel(logging.ERROR)
 
 
 def meta_signature(h, o, field):
@@ -131,11 +127,11 @@ def run(ctx):
     import breezy.plugins.fastimport.exporter  # noqa: F401
     import breezy.plugins.fastimport.processors.generic_processor  # noqa: F401
     import fastimport.parser  # noqa: F401
-    quiet()
+    cc.quiet()
     q = ctx.quick
     hs = cc.universe(ctx, nsmall=25 if q else 250, nlarge=50 if q else 900, max_revs=4 if q else 5)
     items = list(enumerate(hs))
-    core.fork_map(ctx, replay, items)
+    core.fork_map(ctx, replay_chunk, items)
     rows = ctx.collected
     if len(rows) != len(items):
         ctx.machinery("replayed %d of %d histories" % (len(rows), len(items)))
@@ -155,7 +151,7 @@ def run(ctx):
     ctx.rule("histories = final states of TLC random walks of HistoryChannelGen (every revision graph of the bound is an "
              "initial state; small constants: 3 paths, <= 3 revisions; large: 10 paths, 4 contents, <= 3 edits per commit, "
              "merges, roots, tags, <= %d revisions) after TLC checked the in-spec laws exhaustively on the small universes; "
-             "every history goes through exporter (rich / plain) and importer (pruning / not pruning) by index; "
+             "every history goes through the exporter (rich / --plain by index) and the importer; "
              "non-trivial = more than one revision or more than one path; distinct = (variant, history)" % (4 if q else 5))
     ctx.assume("trees are compared after DropEmptyDirs: the stream format is git's and the importer prunes directories that "
                "become empty; the property lists paths, contents, executable bits and symlinks")
@@ -170,29 +166,53 @@ def run(ctx):
         if not failed:
             continue
         judged_bad.add(row["idx"])
-        cls = row.get("cls") or ("unminimised-" + ("merge" if any(len(ps) > 1 for ps in h["P"]) else "linear"))
+        fine = row.get("cls") or ("unminimised-" + ("merge" if any(len(ps) > 1 for ps in h["P"]) else "linear"))
+        cls = cc.cause_group(row["min"], fine) if row.get("min") else fine
         rep = dict(cc.lean(row), stream=row["diag"]["stream"], raw=o.get("raw"), minimal=row.get("min"))
-        where = "variant %s, minimal failing history %s, found in %s" % (row["variant"], cc.hkey(row.get("min") or h), cc.hkey(h))
-        if not o["ok"]:
-            ctx.violation("%s:%s@%s:%s" % (o.get("stage"), o["exc"], o["site"], cls),
+        where = "variant %s, class %s, minimal failing history %s, found in %s" % (
+            row["variant"], fine, cc.hkey(row.get("min") or h), cc.hkey(h))
+        if cls in ("second-root", "revision-property"):
+            ctx.violation(cls, "fast-export | fast-import: %s (%s)" % (
+                "import fails with %s: %s" % (o["exc"], o.get("emsg")) if not o["ok"] else
+                "clauses %s fail, imported graph %s, source graph %s" % (sorted(failed), o["P"], h["P"]), where), rep)
+        elif not o["ok"]:
+            ctx.violation("%s:%s:%s@%s" % (cls, o.get("stage"), o["exc"], o["site"]),
                           "fast-%s fails with %s: %s (%s)" % (o.get("stage"), o["exc"], o.get("emsg"), where), rep)
         elif {"count", "shape", "left"} & set(failed):
-            ctx.violation("graph:%s" % cls,
+            ctx.violation("%s:graph" % cls,
                           "imported revision graph is %s (%d revisions in the repository), source graph is %s; failing "
                           "clauses %s (%s)" % (o["P"], o["nrevs"], h["P"], sorted(failed), where), rep)
         elif "trees" in failed:
             _, desc = cc.tree_signature(h, o)
-            ctx.violation("trees:%s" % cls, "imported tree differs: %s (%s)" % (desc, where), rep)
+            ctx.violation("%s:trees" % cls, "imported tree differs: %s (%s)" % (desc, where), rep)
         else:
             for clause, fields in (("message", ("msg",)), ("committer", ("who",)), ("time", ("ts", "tz"))):
                 if clause in failed:
                     ctx.violation("%s:%s" % (clause, ";".join("%s=%s" % (f, meta_signature(h, o, f)) for f in fields)),
                                   "imported %s differs: %s -> %s (%s)" % (clause, h["M"], o.get("raw"), where), rep)
             if "tags" in failed and not ({"message", "committer", "time"} & set(failed)):
-                ctx.violation("tags:%s" % cls, "imported tags are %s, source tags are %s (%s)" % (o["tags"], h["tags"], where), rep)
+                ctx.violation("%s:tags" % cls, "imported tags are %s, source tags are %s (%s)" % (o["tags"], h["tags"], where), rep)
     for r in rows:                                             # the python twin only serves minimisation; it must agree
         if (r["pyfail"] is not None) != (r["idx"] in judged_bad):
             ctx.drift("python twin of the law (%s) and TLC (%s) disagree on history %s" % (
                 r["pyfail"], r["idx"] in judged_bad, cc.hkey(r["c"])), cc.lean(r))
     ctx.cov["histories_with_empty_directory_differences"] = emptydirs
     ctx.cov["minimisation_runs"] = sum(r.get("min_runs", 0) for r in rows)
+
+
+def replay(ctx, rep):
+    """./check C44 --replay FILE: run the recorded (minimal, else original) history again and let TLC judge it."""
+    import json
+    env.init()
+    cc.preload()
+    cc.quiet()
+    row = rep["replay"]
+    h = row.get("minimal") or row["c"]
+    idx = row.get("idx", 0)
+    now = fast_once(ctx, h, idx, cc.scratch_root() or ctx.workdir, cc.names_of(idx), idx % len(VARIANTS), props_of(idx))
+    print(json.dumps({"history": h, "variant": now["variant"], "observed_now": cc.lean(now["o"]),
+                      "error": {k: now["o"].get(k) for k in ("stage", "exc", "site", "emsg")}}, indent=1))
+    print(now["diag"]["stream"])
+    for _, failed, drifts, notes in cc.judge(ctx, [now]):
+        for f in failed:
+            ctx.violation("replay:" + f, "clause %s fails on replay" % f, cc.lean(now))
